@@ -161,7 +161,7 @@ def session():
 def ksel():
     import c16
     rep = Rep("C16", "quick", 0, "model_checking")
-    good = {"mode": "unsup", "lo": 1, "hi": 4, "evals": [{"k": 1, "score": 3}, {"k": 2, "score": 2}, {"k": 3, "score": 2}, {"k": 4, "score": 5}], "top": 9, "best_k": 2, "final_arcs_k": 2, "final_pdf_k": 2, "final_pdf_same": 1, "criterion_on_validation_labels": 1}
+    good = {"mode": "unsup", "lo": 1, "hi": 4, "evals": [{"k": 1, "score": 3}, {"k": 2, "score": 2}, {"k": 3, "score": 2}, {"k": 4, "score": 5}], "top": 9, "best_k": 2, "final_arcs_k": 2, "final_pdf_k": 2, "final_pdf_same": 1, "criterion_on_validation_labels": 1, "criterion_is_the_cut": 1}
     bad1 = dict(good, best_k=3)
     bad2 = dict(good, final_arcs_k=4)
     bad3 = dict(good, evals=good["evals"][:2])
